@@ -1596,6 +1596,21 @@ class WriteTool(BaseTool):
                         # Best-effort: if repair fails, preserve original validation_errors
                         pass
 
+                # Issue #190: severity="warning" entries (UNKNOWN_FIELDS::WARN) are advisory:
+                # they are surfaced in corrections and never make the document INVALID.
+                for err in validation_errors:
+                    if err.severity == "warning":
+                        corrections.append(
+                            {
+                                "code": err.code,
+                                "message": err.message,
+                                "field": err.field_path,
+                                "safe": True,
+                                "semantics_changed": False,
+                            }
+                        )
+                validation_errors = [err for err in validation_errors if err.severity != "warning"]
+
                 if validation_errors:
                     result["validation_status"] = "INVALID"
                     result["validation_errors"] = [
